@@ -74,8 +74,13 @@ def reads (s w : Str) : Bool :=
 /-- number of concrete readings -/
 def readingCount (s : Str) : Nat := (s.map fun c => (basesOf c).length).foldl (· * ·) 1
 
+/-- no two equal entries: sort, then compare neighbours (n log n; expansions can have 10^5 entries) -/
+def allDistinct (got : List Str) : Bool :=
+  let a := (got.map String.ofList).toArray.qsort (· < ·)
+  (List.range (a.size - 1)).all fun i => a[i]! != a[i + 1]!
+
 /-- `got` is exactly the set of readings of `s`, each once. -/
 def isExpansion (s : Str) (got : List Str) : Bool :=
-  got.all (reads s) && got.eraseDups.length == got.length && got.length == readingCount s
+  got.all (reads s) && allDistinct got && got.length == readingCount s
 
 end PolyVerif.Spec
